@@ -35,6 +35,26 @@ def histories(ctx, n_random, recipe_names, gen_kwargs, nops=(5, 35), ncfg=32, re
         yield 'random', cfg, ops, sizes
 
 
+def accepted_only(ops, rp):
+    """(ops', rp'): the history without the edits that the specification refuses GIVEN the reopen points (a reopen splits the
+    identity of empty files, so an edit that was valid when generated can become invalid) -- the image properties quantify
+    over accepted histories; refusals are C13/C14's business.  Reopen points are re-indexed."""
+    from harness import pyspec
+    ops, rp = list(ops), sorted(rp)
+    for _ in range(len(ops) + 1):
+        try:
+            _, outs = pyspec.run(ops, rp)
+        except Exception:
+            return ops, tuple(rp)
+        bad = [i for i, o in enumerate(outs) if o != 'ok']
+        if not bad:
+            break
+        i = bad[0]
+        ops = ops[:i] + ops[i + 1:]
+        rp = [q if q <= i else q - 1 for q in rp]
+    return ops, tuple(q for q in sorted(set(rp)) if 0 < q <= len(ops))
+
+
 def shrink(cfg, ops, sizes, fails, budget=120):
     """greedy one-at-a-time deletion while fails(ops) keeps returning the same signature"""
     cur = list(ops)
